@@ -43,6 +43,7 @@
 /* #include "alignment.h" */
 #include "pick_anchor.h"
 #include "esl_stopwatch.h"
+#include "kalign_verif.h"
 
 struct node{
         struct node* left;
@@ -191,6 +192,7 @@ int bisecting_kmeans(struct msa* msa, struct node** ret_n, const float * const *
         int num_l,num_r;
 
         /* LOG_MSG("num_samples: %d", num_samples); */
+        KALIGN_VERIF_EVENT(KV_KM_ENTER, ret_n, num_samples, 0, 0);
         num_anchors = MACRO_MIN(32, msa->numseq);
 
         if(num_samples < 100){
@@ -200,6 +202,7 @@ int bisecting_kmeans(struct msa* msa, struct node** ret_n, const float * const *
                 *ret_n = n;
                 gfree(dm);
                 MFREE(samples);
+                KALIGN_VERIF_EVENT(KV_KM_LEAVE, ret_n, 0, 0, 0);
                 return OK;
                 //return n;
         }
@@ -244,6 +247,7 @@ int bisecting_kmeans(struct msa* msa, struct node** ret_n, const float * const *
 #ifdef HAVE_OPENMP
 #pragma omp taskwait
 #endif
+                KALIGN_VERIF_EVENT(KV_REDUCE_BEGIN, &res[0], 0, 0, 0);
 
                 for(j = 0; j < 4;j++){
                         if(!best){
@@ -302,8 +306,10 @@ int bisecting_kmeans(struct msa* msa, struct node** ret_n, const float * const *
 #ifdef HAVE_OPENMP
 #pragma omp taskwait
 #endif
+        KALIGN_VERIF_EVENT(KV_KM_JOIN, ret_n, 0, 0, 0);
 
         *ret_n =n;
+        KALIGN_VERIF_EVENT(KV_KM_LEAVE, ret_n, 0, 0, 0);
         return OK;
 ERROR:
         return FAIL;
@@ -686,6 +692,7 @@ int split2(const float * const * dm,const int* samples, const int num_anchors,co
         int s;
         int j;
 
+        KALIGN_VERIF_EVENT(KV_SPLIT_BEGIN, ret, seed_pick, 0, 0);
         num_var = num_anchors / 8;
         if( num_anchors%8){
                 num_var++;
@@ -869,6 +876,7 @@ int split2(const float * const * dm,const int* samples, const int num_anchors,co
         res->nr =  num_r;
         res->score = score;
         *ret = res;
+        KALIGN_VERIF_EVENT(KV_SPLIT_END, ret, seed_pick, 0, 0);
         return OK;
 ERROR:
         return FAIL;
